@@ -568,7 +568,7 @@ fn parse_defs(s: &str) -> Option<Vec<(String, String)>> {
     }
     s.split(',')
         .map(|d| {
-            let p: Vec<&str> = d.split('=').collect();
+            let p: Vec<&str> = d.splitn(2, '=').collect();
             if p.len() == 2 { Some((p[0].to_string(), p[1].to_string())) } else { None }
         })
         .collect()
@@ -707,11 +707,16 @@ fn run_dirs(line: &str, dirs: &[Dir], out: &mut Out, st: &mut Stats) {
 
 const ALPHABET: &[char] = &['0', '1', 'd', 'n', 'e', 'E', 'l', 'f', 't', 'D'];
 
-fn exhaustive(max_len: usize, out: &mut Out, st: &mut Stats) {
+fn exhaustive(max_len: usize, shard: (u64, u64), out: &mut Out, st: &mut Stats) {
     let mut buf = String::new();
+    let mut index: u64 = 0;
     for len in 0..=max_len {
         let total = 10usize.pow(len as u32);
         for mut k in 0..total {
+            index += 1;
+            if index % shard.1 != shard.0 {
+                continue;
+            }
             buf.clear();
             for _ in 0..len {
                 buf.push(ALPHABET[k % 10]);
@@ -929,7 +934,7 @@ pub fn run(args: &Args, out: &mut Out) {
         }
         return;
     }
-    let mut r = Rng::new(args.seed);
+    let mut shard: (u64, u64) = (0, 1);
     let mut max_len = if args.thorough() { 7 } else { 6 };
     let mut n_cond = if args.thorough() { 400_000 } else { 60_000 };
     let mut n_run = if args.thorough() { 200_000 } else { 30_000 };
@@ -948,6 +953,14 @@ pub fn run(args: &Args, out: &mut Out) {
                 n_run = args.extra[i + 1].parse().unwrap_or(n_run);
                 i += 2;
             }
+            "--shard" => {
+                // i/n : this process handles every n-th input starting at i
+                let p: Vec<u64> = args.extra[i + 1].split('/').filter_map(|x| x.parse().ok()).collect();
+                if p.len() == 2 && p[1] > 0 && p[0] < p[1] {
+                    shard = (p[0], p[1]);
+                }
+                i += 2;
+            }
             _ => i += 1,
         }
     }
@@ -955,9 +968,11 @@ pub fn run(args: &Args, out: &mut Out) {
         n_cond = n;
         n_run = n;
     }
-    exhaustive(max_len, out, &mut st);
-    random_conds(&mut r.fork(), n_cond, out, &mut st);
-    random_runs(&mut r.fork(), n_run, out, &mut st);
+    let mut r = Rng::new(args.seed.wrapping_add(shard.0.wrapping_mul(0x1000_0000_01B3)));
+    let share = |n: u64| n / shard.1 + if shard.0 < n % shard.1 { 1 } else { 0 };
+    exhaustive(max_len, shard, out, &mut st);
+    random_conds(&mut r.fork(), share(n_cond), out, &mut st);
+    random_runs(&mut r.fork(), share(n_run), out, &mut st);
     out.stat(&format!(
         "{{\"exhaustive_max_len\":{},\"ops\":{},\"outcome\":{},\"oracle\":{},\"max_nesting\":{},\"lines_kept\":{},\"kinds\":{},\"cond_value\":{},\"cond_operators\":{},\"cond_depth\":{}}}",
         max_len,
